@@ -6,6 +6,8 @@ import CkbVerif.Lemmas.HashLayout
 import CkbVerif.Lemmas.HashBlockBytes
 import CkbVerif.Lemmas.HashView
 import CkbVerif.Lemmas.HashCbmtArray
+import CkbVerif.Lemmas.HashProofTop
+import CkbVerif.Lemmas.MolSize
 /-!
 # C15 — wire and storage encodings round-trip losslessly and hashes commit to content
 
@@ -517,6 +519,339 @@ example : (intoView termAlg exData).hash ≠ (intoView termAlg exData').hash := 
   exact absurd (congrArg Body.proposals this.2) (by decide)
 
 end view_layer
+
+/-! ### CBMT merkle proofs (`merkle_cbt` 0.3.2 as used by `get_transaction_proof` / `verify_transaction_proof`) -/
+
+section merkle_proofs
+open CkbVerif.Hash
+
+/-- `CBMT::build_merkle_tree` fills exactly the array-form complete binary merkle tree: `2n-1` nodes, node `i` = `nodeAt i`
+(leaves at `n-1 ..`, `nodes[i] = merge nodes[2i+1] nodes[2i+2]`), and `MerkleTree::root()` = `build_merkle_root` -/
+theorem build_merkle_tree_is_array_tree {α : Type} (merge : α → α → α) (zero : α) (leaves : List α) (hne : leaves ≠ []) :
+    (buildTree merge zero leaves).length = 2 * leaves.length - 1 ∧
+    (∀ i, i < 2 * leaves.length - 1 → (buildTree merge zero leaves).getD i zero = nodeAt merge zero leaves i) ∧
+    treeRoot zero (buildTree merge zero leaves) = cbmtRoot merge zero leaves := by
+  have hn : 0 < leaves.length := List.length_pos_iff.mpr hne
+  refine ⟨buildTree_length merge zero leaves hne, buildTree_getD merge zero leaves hne, ?_⟩
+  have h0 := buildTree_getD merge zero leaves hne 0 (by omega)
+  rw [cbmtRoot_eq_nodeAt merge zero leaves hne, ← h0]
+  unfold treeRoot
+  cases buildTree merge zero leaves <;> rfl
+
+/-- **completeness for every leaf subset**: for every non-empty leaf list, every total preorder `le` (`T: Ord`) and every
+non-empty list of DISTINCT in-range leaf indices in any order, `CBMT::build_merkle_proof` returns a proof (never `None`,
+its assertion never fires) whose indices are the requested leaf positions; `CBMT::retrieve_leaves` accepts it and returns
+the selected leaves; `MerkleProof::root` on them is `Some(build_merkle_root(leaves))`. -/
+theorem merkle_proof_complete {α : Type} (le : α → α → Bool)
+    (htot : ∀ a b : α, le a b = true ∨ le b a = true) (htrans : ∀ a b c : α, le a b = true → le b c = true → le a c = true)
+    (merge : α → α → α) (zero : α) (leaves : List α) (idx : List Nat)
+    (hne : leaves ≠ []) (hidx : idx ≠ []) (hnd : idx.Nodup) (hr : ∀ i ∈ idx, i < leaves.length) :
+    ∃ p : MProof α, buildMerkleProof le merge zero leaves idx = .some p ∧
+      p.indices.Perm (idx.map (fun i => leaves.length + i - 1)) ∧
+      retrieveLeaves zero leaves p = some (p.indices.map fun i => leaves.getD (i + 1 - leaves.length) zero) ∧
+      proofRoot le merge p (p.indices.map fun i => leaves.getD (i + 1 - leaves.length) zero)
+        = some (cbmtRoot merge zero leaves) :=
+  buildMerkleProof_complete le htot htrans merge zero leaves idx hne hidx hnd hr
+
+/-- **the assertion inside `build_proof` is reachable only on a one-leaf tree**: with two or more leaves
+`CBMT::build_merkle_proof` returns `None` or a proof for EVERY index list (duplicates, out of range, any order) — it
+cannot panic; the one-leaf case with a repeated index does (`example` below, reproduced on the real code). -/
+theorem build_merkle_proof_panics_only_on_one_leaf {α : Type} (le : α → α → Bool) (merge : α → α → α) (zero : α)
+    (leaves : List α) (idx : List Nat) (hn : 2 ≤ leaves.length) : buildMerkleProof le merge zero leaves idx ≠ .panic :=
+  buildMerkleProof_no_panic le merge zero leaves idx hn
+
+/-- `MerkleProof::verify` accepts the honest proof -/
+theorem merkle_proof_verifies {α : Type} [DecidableEq α] (le : α → α → Bool)
+    (htot : ∀ a b : α, le a b = true ∨ le b a = true) (htrans : ∀ a b c : α, le a b = true → le b c = true → le a c = true)
+    (merge : α → α → α) (zero : α) (leaves : List α) (idx : List Nat)
+    (hne : leaves ≠ []) (hidx : idx ≠ []) (hnd : idx.Nodup) (hr : ∀ i ∈ idx, i < leaves.length) :
+    ∃ p ls, buildMerkleProof le merge zero leaves idx = .some p ∧ retrieveLeaves zero leaves p = some ls ∧
+      proofVerify le merge p (cbmtRoot merge zero leaves) ls = true := by
+  obtain ⟨p, h1, _, h3, h4⟩ := buildMerkleProof_complete le htot htrans merge zero leaves idx hne hidx hnd hr
+  refine ⟨p, _, h1, h3, ?_⟩
+  unfold proofVerify
+  rw [h4]
+  simp
+
+/-- the claimed leaves may be handed to `root` in ANY order (it sorts them), provided `le` is antisymmetric (`Ord` on
+`Byte32` is) -/
+theorem merkle_proof_root_order_irrelevant {α : Type} (le : α → α → Bool)
+    (htot : ∀ a b : α, le a b = true ∨ le b a = true) (htrans : ∀ a b c : α, le a b = true → le b c = true → le a c = true)
+    (hanti : ∀ a b : α, le a b = true → le b a = true → a = b)
+    (merge : α → α → α) (p : MProof α) (l1 l2 : List α) (hp : l1.Perm l2) :
+    proofRoot le merge p l1 = proofRoot le merge p l2 := by
+  have hs : sortBy le id l1 = sortBy le id l2 :=
+    List.Perm.eq_of_pairwise (le := fun a b => le a b = true) (fun a b _ _ h1 h2 => hanti a b h1 h2)
+      (sortBy_pairwise le id htot htrans l1) (sortBy_pairwise le id htot htrans l2)
+      ((sortBy_perm le id l1).trans (hp.trans (sortBy_perm le id l2).symm))
+  unfold proofRoot proofPre
+  rw [hs, hp.length_eq]
+  have : l1.isEmpty = l2.isEmpty := by
+    cases l1 <;> cases l2 <;> simp_all
+  rw [this]
+
+/-- **soundness for distinct leaf positions**: `merge` injective; a proof whose indices are distinct and inside the leaf
+range of the tree over `leaves` (the range is what `retrieve_leaves` checks) and whose `root(claimed)` is
+`build_merkle_root(leaves)` binds every claimed leaf: the k-th index of the proof paired with the k-th smallest claimed
+leaf IS the tree's leaf at that position.  (No entry can have been dropped, no lemma left over.) -/
+theorem merkle_proof_sound {α : Type} (le : α → α → Bool) (merge : α → α → α) (hinj : Injective2 merge) (zero : α)
+    (leaves : List α) (hne : leaves ≠ []) (p : MProof α) (claimed : List α)
+    (hnd : p.indices.Nodup)
+    (hrange : ∀ i ∈ p.indices, leaves.length - 1 ≤ i ∧ i ≤ 2 * (leaves.length - 1))
+    (hroot : proofRoot le merge p claimed = some (cbmtRoot merge zero leaves)) :
+    ∀ e ∈ p.indices.zip (sortBy le id claimed), leaves.getD (e.1 + 1 - leaves.length) zero = e.2 :=
+  proofRoot_sound le merge hinj zero leaves hne p claimed hnd hrange hroot
+
+/-- … in particular every claimed leaf is a leaf of the tree -/
+theorem merkle_proof_sound_membership {α : Type} (le : α → α → Bool) (merge : α → α → α) (hinj : Injective2 merge) (zero : α)
+    (leaves : List α) (hne : leaves ≠ []) (p : MProof α) (claimed : List α)
+    (hnd : p.indices.Nodup)
+    (hrange : ∀ i ∈ p.indices, leaves.length - 1 ≤ i ∧ i ≤ 2 * (leaves.length - 1))
+    (hroot : proofRoot le merge p claimed = some (cbmtRoot merge zero leaves)) :
+    ∀ x ∈ claimed, x ∈ leaves := by
+  intro x hx
+  have hn : 0 < leaves.length := List.length_pos_iff.mpr hne
+  have hlen : claimed.length = p.indices.length := by
+    unfold proofRoot at hroot
+    split at hroot
+    · cases hroot
+    · rename_i hc
+      simp only [Bool.or_eq_true, bne_iff_ne, ne_eq, not_or, Decidable.not_not] at hc
+      exact hc.1
+  obtain ⟨i, hi⟩ := zip_mem_right p.indices (sortBy le id claimed) (by rw [sortBy_length]; omega) x ((mem_sortBy le id).mpr hx)
+  have := proofRoot_sound le merge hinj zero leaves hne p claimed hnd hrange hroot (i, x) hi
+  have hr := hrange i (List.of_mem_zip hi).1
+  simp only [] at this
+  rw [← this, List.getD_eq_getElem?_getD, List.getElem?_eq_getElem (by omega)]
+  simp
+
+/-- **the distinctness hypothesis is necessary** (negation witness, for EVERY merge function): `root` silently drops an
+entry when the lemmas are exhausted and its sibling is not next.  Over the four leaves 40,30,20,10 the proof with indices
+[6,6,5,4,3] (all inside the leaf range 3..6, index 6 twice) and no lemmas makes `root([5,10,20,30,40])` return the true
+root although 5 is not a leaf: the first entry `(6,5)` is dropped, the rest rebuilds the whole tree.  The same with a
+lemma in play: indices [4,6,4,3], lemma = leaf 20, claimed [5,10,30,40]. -/
+theorem proof_root_duplicate_index_unbound (merge : Nat → Nat → Nat) :
+    proofRoot Nat.ble merge { indices := [6, 6, 5, 4, 3], lemmas := [] } [5, 10, 20, 30, 40]
+      = some (cbmtRoot merge 0 [40, 30, 20, 10]) ∧
+    proofRoot Nat.ble merge { indices := [4, 6, 4, 3], lemmas := [20] } [30, 5, 10, 40]
+      = some (cbmtRoot merge 0 [40, 30, 20, 10]) ∧
+    5 ∉ [40, 30, 20, 10] ∧
+    retrieveLeaves 0 [40, 30, 20, 10] ({ indices := [6, 6, 5, 4, 3], lemmas := [] } : MProof Nat) = some [10, 10, 20, 30, 40] :=
+  ⟨rfl, rfl, by decide, rfl⟩
+
+/-- and without any range check (`verify` alone has none) a proof can bind nothing but its root entry:
+`MerkleProof { indices: [0,7,6,3], lemmas: [] }.root([r,x,y,z])` = `Some(r)` for the smallest `r` -/
+theorem proof_root_drops_unpaired_entries (merge : Nat → Nat → Nat) :
+    proofRoot Nat.ble merge { indices := [0, 7, 6, 3], lemmas := [] } [1, 5, 1, 1] = some 1 := rfl
+
+variable {D : Type} [BEq D] [LawfulBEq D] {A : HashAlg D}
+
+omit [LawfulBEq D] in
+/-- `verify_transaction_proof` only ever returns transaction hashes of the block it looked up -/
+theorem verify_tx_proof_returns_block_hashes (le : D → D → Bool) (txHashes : List D) (tr w : D) (p : MProof D) (hs : List D)
+    (h : verifyTxProof A le txHashes tr w p = some hs) : ∀ x ∈ hs, x ∈ txHashes := by
+  cases hret : retrieveLeaves A.zero txHashes p with
+  | none => simp [verifyTxProof, hret] at h
+  | some ls =>
+    simp only [verifyTxProof, hret] at h
+    split at h
+    · cases h
+    · split at h
+      · have := Option.some.inj h
+        subst this
+        exact (retrieveLeaves_mem A.zero txHashes p _ hret).2.2
+      · cases h
+
+/-- **`get_transaction_proof` → `verify_transaction_proof` round trip**: for every block body (`txs` non-empty) and every
+non-empty set of distinct transaction positions (what `get_tx_indices` produces, in any order), the node builds a proof
+and accepts it against the block's `transactions_root` and `calc_witnesses_root()`, returning exactly the requested
+transaction hashes (as a permutation: sorted by hash). -/
+theorem tx_proof_roundtrip (le : D → D → Bool)
+    (htot : ∀ a b : D, le a b = true ∨ le b a = true) (htrans : ∀ a b c : D, le a b = true → le b c = true → le a c = true)
+    (txs : List Bytes) (idx : List Nat) (hne : txs ≠ []) (hidx : idx ≠ []) (hnd : idx.Nodup) (hr : ∀ i ∈ idx, i < txs.length) :
+    ∃ p hs, getTxProof A le (txs.map (txHash A)) idx = .some p ∧
+      verifyTxProof A le (txs.map (txHash A)) (transactionsRoot A txs) (witnessesRoot A txs) p = some hs ∧
+      hs.Perm (idx.map fun i => (txs.map (txHash A)).getD i A.zero) := by
+  have hne' : txs.map (txHash A) ≠ [] := by simpa using hne
+  have hr' : ∀ i ∈ idx, i < (txs.map (txHash A)).length := by simpa using hr
+  obtain ⟨p, h1, h2, h3, h4⟩ := buildMerkleProof_complete le htot htrans (merge A) A.zero (txs.map (txHash A)) idx hne' hidx hnd hr'
+  refine ⟨p, p.indices.map (fun i => (txs.map (txHash A)).getD (i + 1 - (txs.map (txHash A)).length) A.zero), h1, ?_, ?_⟩
+  · unfold verifyTxProof
+    rw [h3]
+    simp only []
+    rw [h4]
+    simp only []
+    have : transactionsRoot A txs = merkleRoot A [cbmtRoot (merge A) A.zero (txs.map (txHash A)), witnessesRoot A txs] := rfl
+    rw [this]
+    simp
+  · have hn : 0 < (txs.map (txHash A)).length := List.length_pos_iff.mpr hne'
+    have := h2.map (fun i => (txs.map (txHash A)).getD (i + 1 - (txs.map (txHash A)).length) A.zero)
+    refine this.trans ?_
+    rw [List.map_map]
+    apply List.Perm.of_eq
+    apply List.map_congr_left
+    intro i _
+    simp only [Function.comp]
+    congr 1
+    omega
+
+/-- **`get_transaction_and_witness_proof` → `verify_transaction_and_witness_proof` round trip**: both CBMT proofs (over the
+tx hashes and over the witness hashes, same positions) are built and accepted against the block's `transactions_root`;
+the returned list is the requested tx hashes. -/
+theorem tx_and_witness_proof_roundtrip (le : D → D → Bool)
+    (htot : ∀ a b : D, le a b = true ∨ le b a = true) (htrans : ∀ a b c : D, le a b = true → le b c = true → le a c = true)
+    (txs : List Bytes) (idx : List Nat) (hne : txs ≠ []) (hidx : idx ≠ []) (hnd : idx.Nodup) (hr : ∀ i ∈ idx, i < txs.length) :
+    ∃ pt pw hs, getTxProof A le (txs.map (txHash A)) idx = .some pt ∧
+      buildMerkleProof le (merge A) A.zero (txs.map (witnessHash A)) idx = .some pw ∧
+      verifyTxAndWitnessProof A le (txs.map (txHash A)) (txs.map (witnessHash A)) (transactionsRoot A txs) pt pw = some hs ∧
+      hs.Perm (idx.map fun i => (txs.map (txHash A)).getD i A.zero) := by
+  have hne1 : txs.map (txHash A) ≠ [] := by simpa using hne
+  have hne2 : txs.map (witnessHash A) ≠ [] := by simpa using hne
+  have hr1 : ∀ i ∈ idx, i < (txs.map (txHash A)).length := by simpa using hr
+  have hr2 : ∀ i ∈ idx, i < (txs.map (witnessHash A)).length := by simpa using hr
+  obtain ⟨pt, t1, t2, t3, t4⟩ := buildMerkleProof_complete le htot htrans (merge A) A.zero (txs.map (txHash A)) idx hne1 hidx hnd hr1
+  obtain ⟨pw, w1, _, w3, w4⟩ := buildMerkleProof_complete le htot htrans (merge A) A.zero (txs.map (witnessHash A)) idx hne2 hidx hnd hr2
+  refine ⟨pt, pw, pt.indices.map (fun i => (txs.map (txHash A)).getD (i + 1 - (txs.map (txHash A)).length) A.zero), t1, w1, ?_, ?_⟩
+  · unfold verifyTxAndWitnessProof
+    rw [w3]
+    simp only []
+    rw [w4]
+    simp only []
+    rw [t3]
+    simp only []
+    rw [t4]
+    simp only []
+    have : transactionsRoot A txs = merkleRoot A [cbmtRoot (merge A) A.zero (txs.map (txHash A)), cbmtRoot (merge A) A.zero (txs.map (witnessHash A))] := rfl
+    rw [this]
+    simp
+  · have hn : 0 < (txs.map (txHash A)).length := List.length_pos_iff.mpr hne1
+    have := t2.map (fun i => (txs.map (txHash A)).getD (i + 1 - (txs.map (txHash A)).length) A.zero)
+    refine this.trans ?_
+    rw [List.map_map]
+    apply List.Perm.of_eq
+    apply List.map_congr_left
+    intro i _
+    simp only [Function.comp]
+    congr 1
+    omega
+
+omit [BEq D] [LawfulBEq D] in
+/-- **what a verified transaction proof binds, for somebody who only has the header** (`CollisionFree`): a CBMT proof with
+distinct leaf-range indices whose root, merged with the supplied `witnesses_root`, is the header's `transactions_root`
+pins the witnesses root and makes every claimed hash the tx hash of the block's transaction at that position. -/
+theorem tx_proof_binds_hashes (cf : CollisionFree A) (le : D → D → Bool) (txs : List Bytes) (hne : txs ≠ [])
+    (p : MProof D) (claimed : List D) (w r : D)
+    (hnd : p.indices.Nodup)
+    (hrange : ∀ i ∈ p.indices, txs.length - 1 ≤ i ∧ i ≤ 2 * (txs.length - 1))
+    (hr : proofRoot le (merge A) p claimed = some r)
+    (hroot : transactionsRoot A txs = merkleRoot A [r, w]) :
+    w = witnessesRoot A txs ∧
+    ∀ e ∈ p.indices.zip (sortBy le id claimed), (txs.map (txHash A)).getD (e.1 + 1 - txs.length) A.zero = e.2 := by
+  have h : merge A (rawTransactionsRoot A txs) (witnessesRoot A txs) = merge A r w := hroot
+  have hinj := merge_inj2 cf _ _ _ _ h
+  refine ⟨hinj.2.symm, ?_⟩
+  have hne' : txs.map (txHash A) ≠ [] := by simpa using hne
+  have := proofRoot_sound le (merge A) (merge_inj2 cf) A.zero (txs.map (txHash A)) hne' p claimed hnd
+    (by simpa using hrange) (by rw [hr, ← hinj.1]; rfl)
+  simpa using this
+
+example : buildMerkleProof Nat.ble (fun a b => 2 * a + 3 * b + 1) 0 [40, 30, 20, 10, 50] [4, 0]
+    = .some { indices := [4, 8], lemmas := [10, 121] } := by decide
+example : proofRoot Nat.ble (fun a b => 2 * a + 3 * b + 1) { indices := [4, 8], lemmas := [10, 121] } [50, 40]
+    = some (cbmtRoot (fun a b => 2 * a + 3 * b + 1) 0 [40, 30, 20, 10, 50]) := by decide
+example : buildMerkleProof Nat.ble (fun a b => a + b) 0 [7] [0, 0] = .panic := by decide
+-- the hypotheses of `merkle_proof_sound` / `tx_proof_binds_hashes` are satisfiable: the honest proof above
+example : ([4, 8] : List Nat).Nodup ∧ ∀ i ∈ [4, 8], [40, 30, 20, 10, 50].length - 1 ≤ i ∧ i ≤ 2 * ([40, 30, 20, 10, 50].length - 1) := by decide
+example : Injective2 (Tm.node : Tm Nat → Tm Nat → Tm Nat) := Tm.node_inj2
+/-- a toy algebra over `Nat` (not collision free) for executable examples of the RPC compositions -/
+def natAlg : HashAlg Nat := { zero := 0, hb := fun b => b.length + 1, hd := fun ds => 2 * ds.sum + 100, hm := fun _ ds => ds.sum }
+example : getTxProof natAlg Nat.ble [5, 3, 4] [1, 2] = .some { indices := [3, 4], lemmas := [5] } := by decide
+example : verifyTxProof natAlg Nat.ble [5, 3, 4] (merkleRoot natAlg [merkleRoot natAlg [5, 3, 4], 77]) 77
+    { indices := [3, 4], lemmas := [5] } = some [3, 4] := by decide
+
+end merkle_proofs
+
+/-! ### `serialized_size` helpers (`util/gen-types/src/extension/serialized_size.rs`) -/
+
+section serialized_size
+open CkbVerif.Hash
+
+/-- **`Block::serialized_size_without_uncle_proposals`** on the bytes the `Block` builder writes is exactly the length
+of the encoding of the same block with every uncle's proposals removed (for every header, uncle list, transaction
+list and proposal list) -/
+theorem size_without_uncle_proposals_is_stripped_block (h : Val) (us : List (Val × Val)) (ts ps : List Val)
+    (hv : wfv S.Block (.seq [h, .seq (us.map uncleVal), .seq ts, .seq ps]) = true) :
+    sizeWithoutUncleProposals (encode S.Block (.seq [h, .seq (us.map uncleVal), .seq ts, .seq ps])) =
+      some (encode S.Block (.seq [h, .seq ((us.map stripUncle).map uncleVal), .seq ts, .seq ps])).length := by
+  have hv' := hv
+  simp only [S.Block, S.UncleBlockVec, S.TransactionVec, S.ProposalShortIdVec, wfv, wfvL, Bool.and_eq_true, Bool.and_true,
+    decide_eq_true_eq] at hv'
+  obtain ⟨⟨_, hus, _, _⟩, hsz⟩ := hv'
+  have henc : ∀ us', encode S.Block (.seq [h, .seq (us'.map uncleVal), .seq ts, .seq ps]) = encDyn (blockItems h us' ts ps []) := by
+    intro us'
+    simp only [S.Block, S.UncleBlockVec, S.TransactionVec, S.ProposalShortIdVec, encode, encodeL, blockItems]
+  rw [henc, henc, sizeWithoutUncleProposals_encDyn h us ts ps [] (by simpa [wfv] using hus)
+    (by simpa [blockItems, encodeL, S.UncleBlockVec, S.TransactionVec, S.ProposalShortIdVec] using hsz)]
+
+/-- the same for a `BlockV1` (extension present), read as a compatible `Block` -/
+theorem size_without_uncle_proposals_is_stripped_block_v1 (h : Val) (us : List (Val × Val)) (ts ps : List Val) (ext : Val)
+    (hv : wfv S.BlockV1 (.seq [h, .seq (us.map uncleVal), .seq ts, .seq ps, ext]) = true) :
+    sizeWithoutUncleProposals (encode S.BlockV1 (.seq [h, .seq (us.map uncleVal), .seq ts, .seq ps, ext])) =
+      some (encode S.BlockV1 (.seq [h, .seq ((us.map stripUncle).map uncleVal), .seq ts, .seq ps, ext])).length := by
+  have hv' := hv
+  simp only [S.BlockV1, S.UncleBlockVec, S.TransactionVec, S.ProposalShortIdVec, wfv, wfvL, Bool.and_eq_true, Bool.and_true,
+    decide_eq_true_eq] at hv'
+  obtain ⟨⟨_, hus, _, _, _⟩, hsz⟩ := hv'
+  have henc : ∀ us', encode S.BlockV1 (.seq [h, .seq (us'.map uncleVal), .seq ts, .seq ps, ext]) =
+      encDyn (blockItems h us' ts ps [encode S.Bytes ext]) := by
+    intro us'
+    simp only [S.BlockV1, S.UncleBlockVec, S.TransactionVec, S.ProposalShortIdVec, encode, encodeL, blockItems]
+  rw [henc, henc, sizeWithoutUncleProposals_encDyn h us ts ps _ (by simpa [wfv] using hus)
+    (by simpa [blockItems, encodeL, S.UncleBlockVec, S.TransactionVec, S.ProposalShortIdVec] using hsz)]
+
+/-- **`Transaction::serialized_size_in_block`** is exactly what one more transaction adds to the block encoding -/
+theorem tx_size_in_block_is_increment (h us ps : Val) (ts : List Val) (t : Val) :
+    (encode S.Block (.seq [h, us, .seq (ts ++ [t]), ps])).length =
+      (encode S.Block (.seq [h, us, .seq ts, ps])).length + txSizeInBlock (encode S.Transaction t) := by
+  have e1 : (encode S.TransactionVec (.seq (ts ++ [t]))).length =
+      (encode S.TransactionVec (.seq ts)).length + (encode S.Transaction t).length + 4 := by
+    simp only [S.TransactionVec, encode, encDyn_length_all, List.map_append, List.map_cons, List.map_nil, List.flatten_append,
+      List.length_append, List.flatten_cons, List.flatten_nil, List.length_cons, List.length_nil, List.length_map]
+    omega
+  simp only [S.Block, encode, encodeL, txSizeInBlock, numberSize]
+  rw [encDyn_length_all, encDyn_length_all]
+  simp only [List.flatten_cons, List.flatten_nil, List.length_append, List.length_cons, List.length_nil]
+  rw [e1]
+  omega
+
+/-- **`UncleBlock::serialized_size_in_block()`** is exactly what one more uncle WITHOUT proposals adds to the block
+encoding: `Header::TOTAL_SIZE + 5 * NUMBER_SIZE` = 228 -/
+theorem uncle_size_in_block_is_increment (h ts ps : Val) (us : List Val) (uh : Val) (huh : wfv S.Header uh = true) :
+    (encode S.Block (.seq [h, .seq (us ++ [.seq [uh, .seq []]]), ts, ps])).length =
+      (encode S.Block (.seq [h, .seq us, ts, ps])).length + uncleSizeInBlock := by
+  have hlen := encode_length_fixed S.Header uh (by decide +kernel) huh
+  have e0 : (encode S.UncleBlock (.seq [uh, .seq []])).length = size S.Header + 16 := by
+    have := uncle_length (uh, .seq [])
+    simp only [uncleVal, empty_proposals_length, hlen] at this
+    omega
+  have e1 : (encode S.UncleBlockVec (.seq (us ++ [.seq [uh, .seq []]]))).length =
+      (encode S.UncleBlockVec (.seq us)).length + (size S.Header + 16) + 4 := by
+    simp only [S.UncleBlockVec, encode, encDyn_length_all, List.map_append, List.map_cons, List.map_nil, List.flatten_append,
+      List.length_append, List.flatten_cons, List.flatten_nil, List.length_cons, List.length_nil, List.length_map]
+    have := e0
+    simp only [S.UncleBlock, encode] at this
+    omega
+  simp only [S.Block, encode, encodeL, uncleSizeInBlock, numberSize]
+  rw [encDyn_length_all, encDyn_length_all]
+  simp only [List.flatten_cons, List.flatten_nil, List.length_append, List.length_cons, List.length_nil]
+  rw [e1]
+  omega
+
+theorem serialized_size_constants : uncleSizeInBlock = 228 ∧ proposalShortIdSize = 10 := by decide +kernel
+
+example : txSizeInBlock [1, 2, 3] = 7 := rfl
+
+end serialized_size
 
 /-! ### JSON scalars (`JsonUint<T>`, `JsonBytes`) -/
 
